@@ -41,7 +41,8 @@ def main():
     reg = load_registry(pid)
     hs = [h for h in reg.HARNESSES if a.tier in h.tiers]
     if a.only:
-        hs = [h for h in hs if a.only in h.name]
+        pats = [x for x in a.only.split(",") if x]
+        hs = [h for h in hs if any(x in h.name for x in pats)]
     known, fixed = vf.load_known_findings()
     known_keys = {k for k, (p, t) in known.items() if pid in p.split(',')}
     # probes only run for findings that are listed
